@@ -186,7 +186,7 @@ func stressHistory(c *core.Ctx, targets []Term, seed int64, G, perG int, same bo
 	h.Events = append(h.Events, TEvent{E: "reset"})
 	var safe []Term
 	for _, t := range targets {
-		if refFree(t) && !dupInside(t) {
+		if !dupInside(t) { // name references included: bindings are scoped to the decoder since e3c8e5c33
 			safe = append(safe, t)
 		}
 	}
